@@ -1361,11 +1361,11 @@ class Models:
         def t_time(interp):
             # time as integer ticks, monotone along a path (real-time behaviour is not decided)
             last = interp.ctx.__dict__.get("_now")
-            now = interp.ctx.fresh_int("now", 0 if last is None else None, 1 << 40)
+            now = interp.ctx.fresh_int("now", 0 if last is None else None, 1 << 60)
             if last is not None:
                 interp.ctx.assume(compare(">=", now, last))
             interp.ctx.__dict__["_now"] = now
-            return now
+            return V.STime(now.t) if isinstance(now, SInt) else now / 1000000.0
         for nm in ("time", "monotonic", "perf_counter"):
             self.modattrs[("time", nm)] = B("time." + nm, t_time)
             self.callables[getattr(_time, nm)] = self.modattrs[("time", nm)]
